@@ -15,6 +15,15 @@ use crate::util;
 pub fn run(ctx: &mut Ctx) {
     let mut rng = Rng::new(ctx.seed ^ 0xC15);
     let n = if ctx.quick() { 40 } else { 400 };
+    // several entry stores in one directory pack, references across them
+    let nm = if ctx.quick() { 8 } else { 60 };
+    for k in 0..nm as u64 {
+        let case = n as u64 + k;
+        if ctx.wants(case) {
+            let mut crng = rng.fork(case);
+            multi_store(ctx, case, &mut crng, k);
+        }
+    }
     for case in 0..n as u64 {
         let mut crng = rng.fork(case);
         if !ctx.wants(case) {
@@ -99,4 +108,157 @@ pub fn run(ctx: &mut Ctx) {
         ctx.sample(format!("{} entries={} first refs={:?}", spec.label, ne, spec.entries.iter().take(5).map(|e| &e.values[1]).collect::<Vec<_>>()));
         ctx.case_done(fnv(format!("{:?}", spec.entries.iter().map(|e| &e.values).collect::<Vec<_>>()).as_bytes()) ^ case, ne > 1);
     }
+}
+
+
+type BE = jubako::creator::BasicEntry<&'static str, &'static str>;
+
+/// Two or three entry stores registered one after the other in one directory pack; an entry of any
+/// store may refer to an entry of any store (the same, one registered earlier, one registered
+/// later).  Stores are finalised in registration order, so a store registered early sizes its
+/// reference columns before the stores it refers to are finalised.  Oracle: every handle reports
+/// the position of its key inside its own store; every reference reads back as the position of the
+/// target's key inside the target's store.  Model: the Lean decoder reads the same values
+/// (`dp.decode`; the writer model covers single-store packs and is not run here).
+fn multi_store(ctx: &mut Ctx, case: u64, rng: &mut Rng, k: u64) {
+    use jubako as jbk;
+    use jbk::creator::schema;
+    let nstores = 2 + (k % 2) as usize;
+    // sizes around the one-byte / two-byte position boundary
+    let sizes: Vec<usize> = (0..nstores).map(|s| match (k as usize + s) % 4 { 0 => 3 + rng.below(20) as usize, 1 => 257 + rng.below(60) as usize, 2 => 255 + rng.below(3) as usize, _ => 300 + rng.below(400) as usize }).collect();
+    let sorted: Vec<bool> = (0..nstores).map(|_| rng.chance(1, 2)).collect();
+    // p1: only references (to the *next* store, wrapping: the first store refers to a store
+    // registered later, the last one to the first); p2: references mixed with small plain values
+    let mut keys: Vec<Vec<u64>> = vec![];
+    for s in 0..nstores {
+        let mut ks: Vec<u64> = (0..sizes[s] as u64).map(|i| i * 5 + 2).collect();
+        for i in (1..ks.len()).rev() {
+            let j = rng.below(i as u64 + 1) as usize;
+            ks.swap(i, j);
+        }
+        keys.push(ks);
+    }
+    // (target store, target entry) per entry for p1 and optional for p2
+    let mut p1: Vec<Vec<(usize, usize)>> = vec![];
+    let mut p2: Vec<Vec<Result<(usize, usize), u64>>> = vec![];
+    for s in 0..nstores {
+        let ts = (s + 1) % nstores;
+        p1.push((0..sizes[s]).map(|e| (ts, match k % 3 { 0 => sizes[ts] - 1 - (e % sizes[ts]), 1 => rng.below(sizes[ts] as u64) as usize, _ => e % sizes[ts] })).collect());
+        let mut col = vec![];
+        for _ in 0..sizes[s] {
+            if rng.chance(1, 2) {
+                let ts2 = rng.below(nstores as u64) as usize;
+                col.push(Ok((ts2, rng.below(sizes[ts2] as u64) as usize)));
+            } else {
+                col.push(Err(rng.below(200)));
+            }
+        }
+        p2.push(col);
+    }
+    let dir = ctx.work.join(format!("dp-{}", case));
+    std::fs::create_dir_all(&dir).unwrap();
+    let path = dir.join("dir.jbkd");
+    let label = format!("multi-store-{}-{:?}-{:?}", nstores, sizes, sorted);
+    let built = util::guarded(|| -> Result<Vec<Vec<u32>>, String> {
+        let mut creator = jbk::creator::DirectoryPackCreator::new(jbk::PackId::from(0), util::VENDOR, Default::default());
+        let vows: Vec<Vec<jbk::Vow<jbk::EntryIdx>>> = sizes.iter().map(|n| (0..*n).map(|_| jbk::Vow::new(jbk::EntryIdx::from(0))).collect()).collect();
+        let binds: Vec<Vec<jbk::Bound<jbk::EntryIdx>>> = vows.iter().map(|v| v.iter().map(|x| x.bind()).collect()).collect();
+        let mut handles: Vec<Vec<jbk::Bound<jbk::EntryIdx>>> = vec![];
+        let mut vows = vows;
+        for s in 0..nstores {
+            let sch = schema::Schema::new(
+                schema::CommonProperties::new(vec![schema::Property::new_uint("p0"), schema::Property::new_uint("p1"), schema::Property::new_uint("p2")]),
+                vec![],
+                if sorted[s] { Some(vec!["p0"]) } else { None },
+            );
+            let mut store: Box<jbk::creator::EntryStore<&'static str, &'static str, BE>> = Box::new(jbk::creator::EntryStore::new(sch, None));
+            let mut hs = vec![];
+            let my_vows = std::mem::take(&mut vows[s]);
+            for (e, vow) in my_vows.into_iter().enumerate() {
+                let mut values: std::collections::HashMap<&'static str, jbk::Value> = Default::default();
+                values.insert("p0", jbk::Value::Unsigned(keys[s][e]));
+                let (ts, te) = p1[s][e];
+                values.insert("p1", jbk::Value::UnsignedWord(binds[ts][te].clone().into()));
+                values.insert("p2", match p2[s][e] {
+                    Ok((ts, te)) => jbk::Value::UnsignedWord(binds[ts][te].clone().into()),
+                    Err(v) => jbk::Value::Unsigned(v),
+                });
+                let be = BE::new_from_schema_idx(&store.schema, vow, None, values);
+                hs.push(store.add_entry(be));
+            }
+            handles.push(hs);
+            let sid = creator.add_entry_store(store);
+            creator.create_index(["s0", "s1", "s2"][s], Default::default(), 0.into(), sid, (sizes[s] as u32).into(), jbk::EntryIdx::from(0).into());
+        }
+        let mut file = std::fs::OpenOptions::new().read(true).write(true).create(true).truncate(true).open(&path).map_err(|e| format!("io:{e}"))?;
+        let fin = creator.finalize().map_err(|e| format!("io:{e}"))?;
+        fin.write(&mut file).map_err(|e| format!("write:{e}"))?;
+        Ok(handles.iter().map(|hs| hs.iter().map(|b| b.get().into_u32()).collect()).collect())
+    });
+    let bounds = match built {
+        Ok(Ok(b)) => b,
+        other => {
+            ctx.fail(case, "create", &format!("{}: creation failed: {:?}", label, other.err().or(None)));
+            ctx.case_done(case, true);
+            return;
+        }
+    };
+    // final positions per store
+    let mut pos_of: Vec<Vec<u64>> = vec![];
+    let mut orders: Vec<Vec<usize>> = vec![];
+    for s in 0..nstores {
+        let mut order: Vec<usize> = (0..sizes[s]).collect();
+        if sorted[s] {
+            order.sort_by_key(|i| keys[s][*i]);
+        }
+        let mut p = vec![0u64; sizes[s]];
+        for (pos, e) in order.iter().enumerate() {
+            p[*e] = pos as u64;
+        }
+        pos_of.push(p);
+        orders.push(order);
+    }
+    'b: for s in 0..nstores {
+        for e in 0..sizes[s] {
+            if bounds[s][e] as u64 != pos_of[s][e] {
+                ctx.fail(case, "bound", &format!("{}: handle of entry #{e} of store {s} (key {}) reports position {}; its key is stored at position {}", label, keys[s][e], bounds[s][e], pos_of[s][e]));
+                break 'b;
+            }
+        }
+    }
+    // expected dump in the dp.decode format: one index per store
+    let mut parts = vec![];
+    for s in 0..nstores {
+        let head = format!("idx:{}:{}:{}:{}:{}", crate::out::hex(["s0", "s1", "s2"][s].as_bytes()), s, sizes[s], 0, 0);
+        let mut es = vec![];
+        for &e in &orders[s] {
+            let (ts, te) = p1[s][e];
+            let v2 = match p2[s][e] { Ok((ts, te)) => pos_of[ts][te], Err(v) => v };
+            es.push(format!("ok v-,{}=u{},{}=u{},{}=u{}", crate::out::hex(b"p0"), keys[s][e], crate::out::hex(b"p1"), pos_of[ts][te], crate::out::hex(b"p2"), v2));
+        }
+        parts.push(format!("{}{{{}}}", head, es.join(";")));
+    }
+    let expected = format!("ok check=true {}", parts.join(" "));
+    let dspec = DirSpec {
+        stores: vec![],
+        common: vec![("p0", PDef::UInt), ("p1", PDef::UInt), ("p2", PDef::UInt)],
+        variants: vec![],
+        sort_keys: None,
+        entries: vec![],
+        indexes: (0..nstores).map(|s| IndexSpec { name: ["s0", "s1", "s2"][s].into(), offset: 0, count: sizes[s] as u32 }).collect(),
+        label: label.clone(),
+    };
+    let got = dirgen::dump(&path, &dspec);
+    if got != expected {
+        let ge: Vec<&str> = got.split(|c| c == ';' || c == '{' || c == '}').collect();
+        let ee: Vec<&str> = expected.split(|c| c == ';' || c == '{' || c == '}').collect();
+        let k = ge.iter().zip(ee.iter()).position(|(a, b)| a != b).unwrap_or(0);
+        ctx.fail(case, "reference-value", &format!("{}: field #{} reads `{}`, expected `{}` (p1/p2 = final positions of the referenced entries in their own stores)", label, k, ge.get(k).unwrap_or(&"").chars().take(120).collect::<String>(), ee.get(k).unwrap_or(&"").chars().take(120).collect::<String>()));
+    }
+    let size = std::fs::metadata(&path).map(|m| m.len()).unwrap_or(0);
+    ctx.emit(case, &format!("dp.decode {} 0 {}", path.display(), size), &got);
+    ctx.count("label:multi-store");
+    ctx.add("entries", sizes.iter().sum::<usize>() as u64);
+    ctx.sample(label.clone());
+    ctx.case_done(fnv(label.as_bytes()) ^ case, true);
 }
